@@ -305,10 +305,16 @@ def _worker(args):
         outs = run_driver([prop.model_line(c) for c, _ in batch])
         for (c, io), mo in zip(batch, outs):
             if not prop.agree(c, io, mo):
-                if len(res['mism']) < 50:
+                # keep a few examples per failure class so one flood cannot hide another defect
+                try:
+                    cls = prop.signature(c, io, mo)
+                except Exception:  # noqa: BLE001
+                    cls = None
+                cls = cls or (c['op'], io.split(':')[0:2].__repr__(), mo.split(':')[0:2].__repr__())
+                k = res.setdefault('mism_classes', {})
+                k[cls] = k.get(cls, 0) + 1
+                if k[cls] <= 5 and len(res['mism']) < 400:
                     res['mism'].append((dict(c), io, mo))
-                else:
-                    res['truncated'] = True
         batch.clear()
 
     cov.start()
